@@ -44,6 +44,7 @@ def _claims(mk, rates, probs, mu, invariant):
     cl = []
     rates, probs = mk.lift(rates), mk.lift(probs)
     cl.append(("eq", "sum_p_is_1", probs.sum(-1), torch.ones(probs.shape[:-1]) if probs.dim() > 1 else 1.0))
+    cl.append(("eq", "rates_value", rates, rates))   # exposes the rates to the relational checks (C10, C12)
     cl.append(("ge0", "p_nonneg", probs))
     cl.append(("ge0", "r_nonneg", rates))
     r, p = torch.broadcast_tensors(rates, probs)
@@ -100,6 +101,34 @@ def scn_weibull(K, batch, with_inv, with_mu):
     return scn
 
 
+def scn_sequence(kind, order):
+    """the postconditions hold for the CURRENT parameter values after an update through the public setter, whatever the
+    order in which rates() and probabilities() are requested (order: string over {r,p})"""
+    def scn(mk):
+        from torchtree.core.parameter import Parameter
+        from torchtree.evolution.site_model import InvariantSiteModel, WeibullSiteModel
+        inv1 = mk.real("inv1", (1,), lo=0, hi=1, lo_incl=True)
+        inv2 = mk.real("inv2", (1,), lo=0, hi=1, lo_incl=True)
+        mu1 = mk.real("mu1", (1,), lo=0)
+        mu2 = mk.real("mu2", (1,), lo=0)
+        pinv, pmu = Parameter("inv", inv1), Parameter("mu", mu1)
+        if kind == "invariant":
+            m = InvariantSiteModel("sm", pinv, pmu)
+        else:
+            shape = mk.real("shape", (1,), lo=0)
+            m = WeibullSiteModel("sm", Parameter("shape", shape), 3, pinv, pmu)
+        m.rates(), m.probabilities()
+        pinv.tensor = inv2
+        pmu.tensor = mu2
+        got = {}
+        for ch in order:
+            got[ch] = m.rates() if ch == "r" else m.probabilities()
+        rates = got.get("r", m.rates())
+        probs = got.get("p", m.probabilities())
+        return _claims(mk, rates, probs, mu2, inv2)
+    return scn
+
+
 def obligations(tier, seed):
     obs = []
 
@@ -111,6 +140,9 @@ def obligations(tier, seed):
         for with_mu in (False, True):
             add("C05.constant[batch=%s,mu=%s]" % (b, with_mu), "scn_constant", (b, with_mu), "constant site model")
             add("C05.invariant[batch=%s,mu=%s]" % (b, with_mu), "scn_invariant", (b, with_mu), "invariant site model")
+    for kind in ("invariant", "weibull"):
+        for order in ("rp", "pr", "ppr", "prp"):
+            add("C05.sequence.%s[update then %s]" % (kind, order), "scn_sequence", (kind, order), "postconditions hold for the current values after an update, in any request order")
     Ks = [1, 2, 3, 4, 5, 6, 16] if tier == "quick" else list(range(1, 17))
     for K in Ks:
         for b in batches:
